@@ -21,7 +21,7 @@ Where the full statement is false of the code as it is, it is kept as a `def …
 Prop`, with the strongest `_partial` theorem (explicit side conditions) and a
 `_counterexample` from a concrete witness.  Helper lemmas live in
 CtyModel/Lemmas/{CoversBasic,CoversWeaken,OpsLogic,OpsCompare,OpsArith,OpsColl,
-OpsEquals,OpsIncludes,OpsAddSub,OpsDerived,OpsSets,OpsMul,OpsKnown,d01Ext,d01Round,d01Arith,d01Range,d01Mul,d01Side,d01Has,d01Len}.lean.
+OpsEquals,OpsIncludes,OpsAddSub,OpsDerived,OpsSets,OpsMul,OpsKnown,d01Ext,d01Round,d01Arith,d01Range,d01Mul,d01Side,d01Has,d01Len,d01EqObj}.lean.
 -/
 import CtyModel.Lemmas.OpsEquals
 import CtyModel.Lemmas.OpsIncludes
@@ -33,6 +33,7 @@ import CtyModel.Lemmas.d01Mul
 import CtyModel.Lemmas.d01Side
 import CtyModel.Lemmas.d01Has
 import CtyModel.Lemmas.d01Len
+import CtyModel.Lemmas.d01EqObj
 namespace CtyModel
 namespace C01
 open Value
@@ -332,6 +333,50 @@ theorem sound_equals_partial (o₁ o₂ w₁ w₂ r : Value) (hk₁ : o₁.wholl
     (hc₁ : CoversX w₁ o₁ = true) (hc₂ : CoversX w₂ o₂ = true) (ho : Value.equals o₁ o₂ = .ok r) :
     ∃ r', Value.equals w₁ w₂ = .ok r' ∧ Covers r' r = true :=
   equals_sound_partial o₁ o₂ w₁ w₂ r hk₁ hk₂ hf₁ hf₂ hw₁ hw₂ hc₁ hc₂ ho
+
+/-- Objects and maps (audit C01, missing theorem (c)): two objects of one object type
+whose attribute types are in the fragment above, or two maps of one map type whose
+element type is, with attributes / elements weakened in place at any depth to unknowns
+of any refinement.  The object and map branches of `Equals` do not stop at the first
+unknown comparison — Go ranges over a map, so a known-unequal attribute must decide
+whichever is visited first — they go on and answer "unknown" only if no attribute is
+known to differ; the proof therefore also needs that `Equals` is total on the wholly
+known members the concrete call never looked at (`eqF_total`).  `EqObjOperand` /
+`EqMapOperand`: well-formed type over the fragment, known non-null payload, members as
+the types dictate, numbers integers.  `EqObjWeak` / `EqMapWeak`: same type, a known
+payload (the operand replaced as a whole by an unknown is NOT covered here). -/
+theorem sound_equals_object_partial (o₁ o₂ w₁ w₂ r : Value) (hk₁ : o₁.whollyKnown = true) (hk₂ : o₂.whollyKnown = true)
+    (hf₁ : EqObjOperand o₁) (hf₂ : EqObjOperand o₂) (hty : o₁.ty = o₂.ty) (hw₁ : EqObjWeak w₁ o₁) (hw₂ : EqObjWeak w₂ o₂)
+    (hc₁ : CoversX w₁ o₁ = true) (hc₂ : CoversX w₂ o₂ = true) (ho : Value.equals o₁ o₂ = .ok r) :
+    ∃ r', Value.equals w₁ w₂ = .ok r' ∧ Covers r' r = true :=
+  equals_sound_object o₁ o₂ w₁ w₂ r hk₁ hk₂ hf₁ hf₂ hty hw₁ hw₂ hc₁ hc₂ ho
+
+theorem sound_equals_map_partial (o₁ o₂ w₁ w₂ r : Value) (hk₁ : o₁.whollyKnown = true) (hk₂ : o₂.whollyKnown = true)
+    (hf₁ : EqMapOperand o₁) (hf₂ : EqMapOperand o₂) (hty : o₁.ty = o₂.ty) (hw₁ : EqMapWeak w₁ o₁) (hw₂ : EqMapWeak w₂ o₂)
+    (hc₁ : CoversX w₁ o₁ = true) (hc₂ : CoversX w₂ o₂ = true) (ho : Value.equals o₁ o₂ = .ok r) :
+    ∃ r', Value.equals w₁ w₂ = .ok r' ∧ Covers r' r = true :=
+  equals_sound_map o₁ o₂ w₁ w₂ r hk₁ hk₂ hf₁ hf₂ hty hw₁ hw₂ hc₁ hc₂ ho
+
+/-- the instance that shows why the order of the attributes cannot matter: `{a = 1, b = 2}`
+against `{a = 1, b = 3}` is False; with `a` weakened to an unknown number on the left the
+first comparison is unknown, the second still decides: False (not "unknown") -/
+theorem equals_object_examples :
+    Value.equals ⟨.object ["a", "b"] [.number, .number] [false, false], .smap ["a", "b"] [.n (Num.ofInt 1), .n (Num.ofInt 2)]⟩
+      ⟨.object ["a", "b"] [.number, .number] [false, false], .smap ["a", "b"] [.n (Num.ofInt 1), .n (Num.ofInt 3)]⟩ = .ok (boolVal false) ∧
+    Value.equals ⟨.object ["a", "b"] [.number, .number] [false, false], .smap ["a", "b"] [.unk .unref, .n (Num.ofInt 2)]⟩
+      ⟨.object ["a", "b"] [.number, .number] [false, false], .smap ["a", "b"] [.n (Num.ofInt 1), .n (Num.ofInt 3)]⟩ = .ok (boolVal false) ∧
+    Value.equals ⟨.object ["a", "b"] [.number, .number] [false, false], .smap ["a", "b"] [.unk .unref, .n (Num.ofInt 2)]⟩
+      ⟨.object ["a", "b"] [.number, .number] [false, false], .smap ["a", "b"] [.n (Num.ofInt 1), .n (Num.ofInt 2)]⟩ = .ok unkBool ∧
+    Value.equals ⟨.map .number, .smap ["k"] [.unk (.num .f (some ⟨Num.ofInt 5, true⟩) none)]⟩
+      ⟨.map .number, .smap ["k"] [.n (Num.ofInt 4)]⟩ = .ok (boolVal false) :=
+  ⟨by rfl, by rfl, by rfl, by rfl⟩
+
+example : EqObjOperand ⟨.object ["a", "b"] [.number, .list .bool] [false, false], .smap ["a", "b"] [.n (Num.ofInt 1), .seq [.b true]]⟩ :=
+  ⟨_, _, _, _, _, rfl, by decide, by decide, rfl, by decide⟩
+example : EqObjWeak ⟨.object ["a", "b"] [.number, .list .bool] [false, false], .smap ["a", "b"] [.unk (.num .f none none), .seq [.unk .unref]]⟩
+    ⟨.object ["a", "b"] [.number, .list .bool] [false, false], .smap ["a", "b"] [.n (Num.ofInt 1), .seq [.b true]]⟩ :=
+  ⟨rfl, _, _, rfl, fun ns ts opt h => by cases h; decide⟩
+example : EqMapOperand ⟨.map .number, .smap ["k"] [.n (Num.ofInt 4)]⟩ := ⟨_, _, _, rfl, by decide, rfl, by decide⟩
 
 /-- NotEqual, LessThanOrEqualTo, GreaterThanOrEqualTo are compositions
 (`Equals(…).Not()`, `LessThan(…).Or(Equals(…))`): sound on the same fragment. -/
